@@ -565,6 +565,25 @@ def overrides(ch, prog, natives=None, wide=True):
             del env[n]
     try:
         Ref(prog, env).validate()
+        if env and frozen_default_risk(prog, env):
+            env = {}
     except Invalid:
         env = {}
     return env
+
+
+def frozen_default_risk(prog, env):
+    """The builder fixes a DEFAULTED slice stop of an alias whose source is itself an alias at
+    parse time (stop = current size of the source under the declared let values).  An override
+    that resizes that source makes the parsed circuit and the program text disagree; no listed
+    property speaks about that (DESIGN.md 8.1), so such overrides are not generated."""
+    if not prog["reg"]:
+        return False
+    regname = prog["reg"][0]
+    r0, r1 = Ref(prog, {}), Ref(prog, env)
+    for m in prog["maps"]:
+        sel = m[2]
+        if sel and sel[0] == "s" and sel[2] is None and m[1] != regname:
+            if len(r0.elems(m[1])[1]) != len(r1.elems(m[1])[1]):
+                return True
+    return False
